@@ -10,34 +10,69 @@ mutual
 theorem Ty.beq_eq : (a b : Ty) → Ty.beq a b = true → a = b
   | .prim p, .prim q, h => by simp [Ty.beq] at h; rw [h]
   | .str, .str, _ => rfl
-  | .enum h ls, .enum h' ls', hh => by simp [Ty.beq] at hh; rw [hh.1, hh.2]
+  | .wstr, .wstr, _ => rfl
+  | .enum h ls x, .enum h' ls' x', hh => by simp [Ty.beq] at hh; rw [hh.1.1, hh.1.2, hh.2]
   | .seq a, .seq b, h => by simp only [Ty.beq] at h; rw [Ty.beq_eq a b h]
   | .arr a n, .arr b m, h => by
     simp only [Ty.beq, Bool.and_eq_true, beq_iff_eq] at h; rw [h.1, Ty.beq_eq a b h.2]
   | .struct x ms, .struct y ns, h => by
     simp only [Ty.beq, Bool.and_eq_true, beq_iff_eq] at h; rw [h.1, Ms.beq_eq ms ns h.2]
-  | .prim _, .str, h | .prim _, .enum _ _, h | .prim _, .seq _, h | .prim _, .arr _ _, h | .prim _, .struct _ _, h => by simp [Ty.beq] at h
-  | .str, .prim _, h | .str, .enum _ _, h | .str, .seq _, h | .str, .arr _ _, h | .str, .struct _ _, h => by simp [Ty.beq] at h
-  | .enum _ _, .prim _, h | .enum _ _, .str, h | .enum _ _, .seq _, h | .enum _ _, .arr _ _, h | .enum _ _, .struct _ _, h => by simp [Ty.beq] at h
-  | .seq _, .prim _, h | .seq _, .str, h | .seq _, .enum _ _, h | .seq _, .arr _ _, h | .seq _, .struct _ _, h => by simp [Ty.beq] at h
-  | .arr _ _, .prim _, h | .arr _ _, .str, h | .arr _ _, .enum _ _, h | .arr _ _, .seq _, h | .arr _ _, .struct _ _, h => by simp [Ty.beq] at h
-  | .struct _ _, .prim _, h | .struct _ _, .str, h | .struct _ _, .enum _ _, h | .struct _ _, .seq _, h | .struct _ _, .arr _ _, h => by simp [Ty.beq] at h
+  | .union d bs, .union d' bs', h => by
+    simp only [Ty.beq, Bool.and_eq_true, beq_iff_eq] at h; rw [h.1, Bs.beq_eq bs bs' h.2]
+  | .prim _, .str, h | .prim _, .wstr, h | .prim _, .enum _ _ _, h | .prim _, .seq _, h | .prim _, .arr _ _, h | .prim _, .struct _ _, h | .prim _, .union _ _, h => by simp [Ty.beq] at h
+  | .str, .prim _, h | .str, .wstr, h | .str, .enum _ _ _, h | .str, .seq _, h | .str, .arr _ _, h | .str, .struct _ _, h | .str, .union _ _, h => by simp [Ty.beq] at h
+  | .wstr, .prim _, h | .wstr, .str, h | .wstr, .enum _ _ _, h | .wstr, .seq _, h | .wstr, .arr _ _, h | .wstr, .struct _ _, h | .wstr, .union _ _, h => by simp [Ty.beq] at h
+  | .enum _ _ _, .prim _, h | .enum _ _ _, .str, h | .enum _ _ _, .wstr, h | .enum _ _ _, .seq _, h | .enum _ _ _, .arr _ _, h | .enum _ _ _, .struct _ _, h | .enum _ _ _, .union _ _, h => by simp [Ty.beq] at h
+  | .seq _, .prim _, h | .seq _, .str, h | .seq _, .wstr, h | .seq _, .enum _ _ _, h | .seq _, .arr _ _, h | .seq _, .struct _ _, h | .seq _, .union _ _, h => by simp [Ty.beq] at h
+  | .arr _ _, .prim _, h | .arr _ _, .str, h | .arr _ _, .wstr, h | .arr _ _, .enum _ _ _, h | .arr _ _, .seq _, h | .arr _ _, .struct _ _, h | .arr _ _, .union _ _, h => by simp [Ty.beq] at h
+  | .struct _ _, .prim _, h | .struct _ _, .str, h | .struct _ _, .wstr, h | .struct _ _, .enum _ _ _, h | .struct _ _, .seq _, h | .struct _ _, .arr _ _, h | .struct _ _, .union _ _, h => by simp [Ty.beq] at h
+  | .union _ _, .prim _, h | .union _ _, .str, h | .union _ _, .wstr, h | .union _ _, .enum _ _ _, h | .union _ _, .seq _, h | .union _ _, .arr _ _, h | .union _ _, .struct _ _, h => by simp [Ty.beq] at h
 theorem Ms.beq_eq : (a b : Ms) → Ms.beq a b = true → a = b
   | .nil, .nil, _ => rfl
   | .cons i o m t r, .cons i' o' m' t' r', h => by
     simp only [Ms.beq, Bool.and_eq_true, beq_iff_eq] at h
     rw [h.1.1.1.1, h.1.1.1.2, h.1.1.2, Ty.beq_eq t t' h.1.2, Ms.beq_eq r r' h.2]
   | .nil, .cons _ _ _ _ _, h | .cons _ _ _ _ _, .nil, h => by simp [Ms.beq] at h
+theorem Bs.beq_eq : (a b : Bs) → Bs.beq a b = true → a = b
+  | .nil, .nil, _ => rfl
+  | .cons i ls d t r, .cons i' ls' d' t' r', h => by
+    simp only [Bs.beq, Bool.and_eq_true, beq_iff_eq] at h
+    rw [h.1.1.1.1, h.1.1.1.2, h.1.1.2, Ty.beq_eq t t' h.1.2, Bs.beq_eq r r' h.2]
+  | .nil, .cons _ _ _ _ _, h | .cons _ _ _ _ _, .nil, h => by simp [Bs.beq] at h
+end
+
+mutual
+theorem Ty.beq_refl : (a : Ty) → Ty.beq a a = true
+  | .prim _ => by simp [Ty.beq]
+  | .str => by simp [Ty.beq]
+  | .wstr => by simp [Ty.beq]
+  | .enum _ _ _ => by simp [Ty.beq]
+  | .seq a => by simp only [Ty.beq]; exact Ty.beq_refl a
+  | .arr a n => by simp only [Ty.beq, beq_self_eq_true, Bool.true_and]; exact Ty.beq_refl a
+  | .struct x ms => by simp only [Ty.beq, beq_self_eq_true, Bool.true_and]; exact Ms.beq_refl ms
+  | .union d bs => by simp only [Ty.beq, beq_self_eq_true, Bool.true_and]; exact Bs.beq_refl bs
+theorem Ms.beq_refl : (a : Ms) → Ms.beq a a = true
+  | .nil => by simp [Ms.beq]
+  | .cons i o m t r => by
+    simp only [Ms.beq, beq_self_eq_true, Bool.true_and, Bool.and_eq_true]
+    exact ⟨Ty.beq_refl t, Ms.beq_refl r⟩
+theorem Bs.beq_refl : (a : Bs) → Bs.beq a a = true
+  | .nil => by simp [Bs.beq]
+  | .cons i ls d t r => by
+    simp only [Bs.beq, beq_self_eq_true, Bool.true_and, Bool.and_eq_true]
+    exact ⟨Ty.beq_refl t, Bs.beq_refl r⟩
 end
 
 mutual
 theorem KTy.beq_refl : (a : KTy) → KTy.beq a a = true
   | .prim _ => by simp [KTy.beq]
   | .str => by simp [KTy.beq]
-  | .enum _ _ => by simp [KTy.beq]
+  | .wstr => by simp [KTy.beq]
+  | .enum _ _ _ => by simp [KTy.beq]
   | .seq a => by simp only [KTy.beq]; exact KTy.beq_refl a
   | .arr a n => by simp only [KTy.beq, beq_self_eq_true, Bool.true_and]; exact KTy.beq_refl a
   | .struct x ms => by simp only [KTy.beq, beq_self_eq_true, Bool.true_and]; exact KMs.beq_refl ms
+  | .union d bs => by simp only [KTy.beq, beq_self_eq_true, Bool.true_and]; exact Bs.beq_refl bs
 theorem KMs.beq_refl : (a : KMs) → KMs.beq a a = true
   | .nil => by simp [KMs.beq]
   | .cons i o m k t r => by
@@ -89,6 +124,9 @@ theorem de_needs4 (cfg : Cfg) (ver : Ver) (e : Endian) (t : Ty) (ht : needs4 t =
     ∃ s', de cfg ver e t s = .err .notEnoughData s' := by
   have hu : ∃ s', dPrim ver e .u32 s = .err .notEnoughData s' := dPrim_short ver e .u32 s (by simpa [Prim.size] using h)
   cases t with
+  | wstr =>
+    obtain ⟨s', hs⟩ := hu
+    exact ⟨s', by simp only [de, dWStr, hs, Res.bind]⟩
   | prim p =>
     simp only [needs4, decide_eq_true_eq] at ht
     obtain ⟨s', hs⟩ := dPrim_short ver e p s (by omega)
@@ -101,9 +139,10 @@ theorem de_needs4 (cfg : Cfg) (ver : Ver) (e : Endian) (t : Ty) (ht : needs4 t =
     refine ⟨s', ?_⟩
     simp only [de]
     split <;> simp only [dSeqBody, dSeqLen, hs, Res.bind]
-  | enum _ _ => simp [needs4] at ht
+  | enum _ _ _ => simp [needs4] at ht
   | arr _ _ => simp [needs4] at ht
   | struct _ _ => simp [needs4] at ht
+  | union _ _ => simp [needs4] at ht
 
 theorem deF_readerLonger (cfg : Cfg) (ver : Ver) (e : Endian) : (msr msw : Ms) → (fs : List Val) →
     msr.readerLonger msw = true → wfFs cfg ver msw fs = true → maxSizeMs msw fs < 2 ^ 32 →
@@ -411,7 +450,7 @@ theorem tidAssignable_refl : (t : Tid) → tidAssignable t t = true
   | .seq a => by simp only [tidAssignable]; exact tidAssignable_refl a
   | .arr n a => by simp only [tidAssignable, beq_self_eq_true, Bool.true_and]; exact tidAssignable_refl a
   | .complete => by simp [tidAssignable]
-  | .bool | .byte | .i8 | .u8 | .i16 | .u16 | .i32 | .u32 | .i64 | .u64 | .f32 | .f64 | .c8 | .str => by
+  | .bool | .byte | .i8 | .u8 | .i16 | .u16 | .i32 | .u32 | .i64 | .u64 | .f32 | .f64 | .c8 | .str | .wstr => by
     simp [tidAssignable, Tid.intLike]
 
 /-- the member descriptions of a key-less member list -/
